@@ -67,10 +67,19 @@ def _shim_classes():
             super().__init__()
             self.handle = handle
             self.peer_address = 'shim'
+            self.disconnected = False
+            self.once(self.EVENT_DISCONNECTION, self._on_disconnected)
+
+        def _on_disconnected(self, *_args):
+            self.disconnected = True
 
         def cancel_on_disconnection(self, awaitable):
-            # same as bumble.device.Connection.cancel_on_disconnection
-            return utils.cancel_on_event(self, self.EVENT_DISCONNECTION, awaitable)
+            # same as bumble.device.Connection.cancel_on_disconnection (which cancels at once when
+            # the 'disconnection' event has already been emitted)
+            future = utils.cancel_on_event(self, self.EVENT_DISCONNECTION, awaitable)
+            if self.disconnected and not future.done():
+                future.cancel()
+            return future
 
     class ShimHost(utils.EventEmitter):
         def __init__(self, sink):
@@ -89,6 +98,13 @@ def _shim_classes():
 
 
 # ----------------------------------------------------------------------------- frames: abstract <-> bytes
+def _params_ok(mtu, mps):
+    """the abstraction of MTU / MPS of a credit-based connection request: within the limits or not"""
+    from bumble import l2cap
+    return (mtu >= l2cap.L2CAP_LE_CREDIT_BASED_CONNECTION_MIN_MTU
+            and l2cap.L2CAP_LE_CREDIT_BASED_CONNECTION_MIN_MPS <= mps <= l2cap.L2CAP_LE_CREDIT_BASED_CONNECTION_MAX_MPS)
+
+
 def frame_to_abs(cid, pdu):
     """bytes on a CID -> abstract frame (a list; JSON-able)"""
     from bumble import l2cap
@@ -126,11 +142,11 @@ def frame_to_abs(cid, pdu):
     if n == 'L2CAP_Disconnection_Response':
         return ['DiscRsp', f.identifier, f.destination_cid, f.source_cid]
     if n == 'L2CAP_LE_Credit_Based_Connection_Request':
-        return ['LeReq', f.identifier, f.le_psm, f.source_cid, f.initial_credits]
+        return ['LeReq', f.identifier, f.le_psm, f.source_cid, f.initial_credits, _params_ok(f.mtu, f.mps)]
     if n == 'L2CAP_LE_Credit_Based_Connection_Response':
         return ['LeRsp', f.identifier, f.destination_cid, f.initial_credits, int(f.result)]
     if n == 'L2CAP_Credit_Based_Connection_Request':
-        return ['EnhReq', f.identifier, f.spsm, f.initial_credits, list(f.source_cid)]
+        return ['EnhReq', f.identifier, f.spsm, f.initial_credits, list(f.source_cid), _params_ok(f.mtu, f.mps)]
     if n == 'L2CAP_Credit_Based_Connection_Response':
         return ['EnhRsp', f.identifier, f.initial_credits, int(f.result), list(f.destination_cid)]
     if n == 'L2CAP_LE_Flow_Control_Credit':
@@ -178,13 +194,15 @@ def abs_to_frame(a):
         return S, bytes(l2cap.L2CAP_Disconnection_Response(identifier=a[1], destination_cid=a[2], source_cid=a[3]))
     if k == 'LeReq':
         return LS, bytes(l2cap.L2CAP_LE_Credit_Based_Connection_Request(
-            identifier=a[1], le_psm=a[2], source_cid=a[3], mtu=MTU, mps=MPS, initial_credits=a[4]))
+            identifier=a[1], le_psm=a[2], source_cid=a[3], mtu=MTU,
+            mps=MPS if (len(a) < 6 or a[5]) else 0, initial_credits=a[4]))
     if k == 'LeRsp':
         return LS, bytes(l2cap.L2CAP_LE_Credit_Based_Connection_Response(
             identifier=a[1], destination_cid=a[2], mtu=MTU, mps=MPS, initial_credits=a[3], result=a[4]))
     if k == 'EnhReq':
         return LS, bytes(l2cap.L2CAP_Credit_Based_Connection_Request(
-            identifier=a[1], spsm=a[2], mtu=MTU, mps=MPS, initial_credits=a[3], source_cid=list(a[4])))
+            identifier=a[1], spsm=a[2], mtu=MTU, mps=MPS if (len(a) < 6 or a[5]) else 0, initial_credits=a[3],
+            source_cid=list(a[4])))
     if k == 'EnhRsp':
         return LS, bytes(l2cap.L2CAP_Credit_Based_Connection_Response(
             identifier=a[1], mtu=MTU, mps=MPS, initial_credits=a[2],
@@ -646,6 +664,19 @@ class World:
                     scids[(h, c.source_cid)] = name(c)
                 if not isinstance(c, l2cap.ClassicChannel) and c.state == LS.DISCONNECTED and not c.drained.is_set():
                     bad.append(('drain-stuck-closed', f'{name(c)} is DISCONNECTED, drain() would wait forever'))
+            # an open that nobody waits for any more must not keep its channel filed, and a closed
+            # channel must not keep a connect() waiting
+            open_pending = {(h2, e2) for (mm, ww), (k2, h2, e2, _) in self.task_info.items()
+                            if mm == mi and k2 == 'open' and not M.tasks[ww].done()}
+            for h, d in m.channels.items():
+                for cid, c in d.items():
+                    if current(c) and not isinstance(c, l2cap.ClassicChannel) and c.state in (LS.INIT, LS.CONNECTING) \
+                            and (h, self.epoch.get((mi, h), 0)) not in open_pending:
+                        bad.append(('stale-channels-abandoned', f'{name(c)} is {c.state.name}, no open is pending on connection {h}, but it is still in channels[{h}][{cid}]'))
+            for c in M.chans:
+                cr = getattr(c, 'connection_result', None)
+                if cr is not None and not cr.done() and closed(c):
+                    bad.append(('connect-stuck-closed', f'{name(c)} is {c.state.name} but its connection_result is still pending'))
             # pending request tables
             for k, v in (m.le_coc_requests.items() if M.peer_ok else ()):
                 items = [(k, i, r) for i, r in v.items()] if isinstance(v, dict) else [(None, k, v)]
@@ -759,11 +790,12 @@ def gen_foreign_frame(rng, w, m, h, ltype):
     if r < 80:
         if ltype == 'le':
             if rng.chance(3, 5):
-                return ['LeReq', rng.range(1, 255), rng.choice([0x80, 0x80, 0x81, 0x90]), peer_cid, rng.choice([0, 1, 4])]
+                return ['LeReq', rng.range(1, 255), rng.choice([0x80, 0x80, 0x81, 0x90]), peer_cid, rng.choice([0, 1, 4]),
+                        not rng.chance(1, 6)]
             k = rng.choice([1, 2, 3])
             base = rng.choice([0x40, 0x50, 0x60])
             return ['EnhReq', rng.range(1, 255), rng.choice([0x80, 0x80, 0x90]), rng.choice([0, 2]),
-                    [base + i for i in range(k)]]
+                    [base + i for i in range(k)], not rng.chance(1, 6)]
         rr = rng.below(10)
         if rr < 5:
             return ['ConnReq', rng.range(1, 255), rng.choice([0x1001, 0x1001, 0x1003, 0x1005]), peer_cid]
@@ -937,6 +969,23 @@ def regen(ctx):
     ctx.extra['c09_constants'] = consts
     ctx.extra['c09_per_connection_tables'] = tables
     ctx.extra['c09_disconnection_pops'] = pops
+    # effect skeleton of the anchored functions (compared in Coq with Proofs/ChanMgrSkeleton.v)
+    sk = c09_tables.skeleton(l2cap)
+    gen = ('(* GENERATED by tools/translate/c09_tables.py skeleton() from bumble/l2cap.py - do not edit *)\n'
+           'From Coq Require Import List String.\nImport ListNotations.\nOpen Scope string_scope.\n\n'
+           + c09_tables.skeleton_coq(sk, 'skeleton_of_source'))
+    ctx.write_gen('C09Skeleton', gen)
+    ctx.extra['c09_skeleton'] = {'functions': len(sk), 'tokens': sum(len(t) for _, t in sk)}
+    try:    # name the functions whose shape differs from the modelled one (information only)
+        here = os.path.dirname(os.path.dirname(os.path.dirname(os.path.abspath(__file__))))
+        exp = open(os.path.join(here, 'coq', 'Proofs', 'ChanMgrSkeleton.v')).read()
+        changed = [fn for fn, toks in sk
+                   if c09_tables.skeleton_coq([(fn, toks)], 'x').split(':=', 1)[1].strip()[1:-2].strip() not in exp]
+        if changed:
+            ctx.extra['c09_skeleton_changed'] = changed
+            ctx.log('shape of the code differs from the modelled skeleton in: ' + ', '.join(changed))
+    except OSError:
+        pass
 
 
 # ----------------------------------------------------------------------------- model side
@@ -1083,16 +1132,45 @@ CORPUS = [
                                     ['close', 0, 0], ['flush']]),
     # D09e: classic disconnection collision
     ('D09e', 'pair', ['cl'], [['open', 0, 1, 2, 0x1001, 1, 0], ['flush'], ['close', 0, 0], ['close', 1, 0], ['flush']]),
+    # D09g: the caller cancels a pending open / aborts the connecting channel
+    ('D09g', 'pair', ['le'], [['open', 0, 1, 0, 0x80, 1, 0], ['cancel', 0, 0], ['flush']]),
+    ('D09g-enh', 'pair', ['le'], [['open', 0, 1, 1, 0x80, 2, 0], ['cancel', 0, 0], ['flush']]),
+    ('D09g-abort', 'pair', ['le'], [['open', 0, 1, 0, 0x80, 1, 0], ['abort', 0, 0], ['flush']]),
+    # the caller cancels the open in the loop iteration in which the response arrived: the channel is
+    # connected and must stay filed (the CONNECTED guard of the D09g handler; seeded edit T8)
+    ('cancel-race', 'pair', ['le'], [['open', 0, 1, 0, 0x80, 1, 0], ['deliver', 0, 0], ['deliver', 0, 1, 0],
+                                     ['cancel', 0, 0], ['flush'], ['write', 0, 0, 2], ['flush'], ['close', 0, 0], ['flush']]),
+    ('cancel-race-enh', 'pair', ['le'], [['open', 0, 1, 1, 0x80, 2, 0], ['deliver', 0, 0], ['deliver', 0, 1, 0],
+                                         ['cancel', 0, 0], ['flush'], ['close', 0, 0], ['flush']]),
+    # D09h: the caller cancels disconnect(), then the response arrives
+    ('D09h', 'pair', ['cl'], [['open', 0, 1, 2, 0x1001, 1, 0], ['flush'], ['close', 0, 0], ['cancel', 0, 1], ['flush']]),
+    # D09i: a late disconnection request for an earlier channel that used the same CID
+    ('D09i', 'pair', ['le'], [['open', 0, 1, 0, 0x80, 1, 0], ['flush'], ['abort', 0, 0], ['close', 1, 0],
+                              ['open', 0, 1, 0, 0x80, 1, 0], ['deliver', 0, 1], ['flush'], ['down', 0]]),
+    # D09j: unsolicited classic disconnection response while connecting
+    ('D09j', 'foreign', ['cl', 'cl'], [['open', 0, 1, 2, 0x1001, 1, 0], ['inject', 0, 1, ['ConnRsp', 1, 0x50, 0x40, 0]],
+                                       ['inject', 0, 1, ['DiscRsp', 9, 0x50, 0x40]]]),
     # D09f: the response and the loss of the link are processed in the same loop iteration
     ('D09f', 'pair', ['le'], [['open', 0, 1, 0, 0x80, 1, 0], ['deliver', 0, 0], ['deliver', 0, 1, 0], ['down', 0]]),
     ('D09f-enh', 'pair', ['le'], [['open', 0, 1, 1, 0x80, 2, 0], ['deliver', 0, 0], ['deliver', 0, 1, 0], ['down', 0]]),
     # model/implementation disagreement found by the thorough campaign: abort() of the orphaned
     # initiator channel of a mode mismatch (WAIT_DISCONNECT, filed nowhere) closes it
     ('abort-orphan', 'pair', ['cl'], [['open', 0, 1, 2, 0x1003, 1, 0], ['flush'], ['abort', 0, 0]]),
+    # (4b0ae06) a credit-based connection request with an MTU / MPS below the minimum is refused and
+    # leaves no trace; the same request with acceptable parameters is accepted afterwards
+    ('bad-params', 'foreign', ['le', 'le'], [['inject', 0, 1, ['LeReq', 7, 0x80, 0x50, 1, False]],
+                                             ['inject', 0, 1, ['EnhReq', 8, 0x80, 2, [0x51, 0x52], False]],
+                                             ['inject', 0, 1, ['LeReq', 9, 0x80, 0x50, 1, True]],
+                                             ['inject', 0, 1, ['EnhReq', 10, 0x80, 2, [0x51, 0x52], True]]]),
     # D07 seen from the tables: enhanced server channel, peer CIDs differ from ours, close
     ('D07-tables', 'foreign', ['le', 'le'], [['inject', 0, 1, ['EnhReq', 7, 0x80, 2, [0x50, 0x51]]], ['close', 0, 0],
                                              ['inject', 0, 1, ['DiscRsp', 1, 0x50, 0x40]]]),
 ]
+
+
+# signalling identifiers wrap from 255 to 1 (0 is skipped): 260 credit packets on one connection
+CORPUS.append(('id-wrap', 'pair', ['le'], [['open', 0, 1, 0, 0x80, 1, 0], ['flush']] + [['grant', 0, 0, 1]] * 260
+               + [['open', 0, 1, 0, 0x80, 1, 0], ['flush']]))
 
 
 def _load_corpus():
